@@ -9,13 +9,15 @@ type operand struct {
 }
 
 type atom struct {
-	L, R operand
-	Op   string // ==, !=, <, <=, >, >=, ~=, ===, in, not in
+	L, R       operand
+	Op         string // ==, !=, <, <=, >, >=, ~=, ===, in, not in
+	Start, End int    // byte offsets of the atom in the marker text
 }
 
 type token struct {
-	kind byte // 'q' quoted, 'i' identifier, 'o' operator, '(' , ')'
-	text string
+	kind       byte // 'q' quoted, 'i' identifier, 'o' operator, '(' , ')'
+	text       string
+	start, end int
 }
 
 func tokenize(m string) ([]token, bool) {
@@ -26,27 +28,27 @@ func tokenize(m string) ([]token, bool) {
 		case c == ' ' || c == '\t':
 			i++
 		case c == '(' || c == ')':
-			ts = append(ts, token{kind: c})
+			ts = append(ts, token{kind: c, start: i, end: i + 1})
 			i++
 		case c == '\'' || c == '"':
 			j := strings.IndexByte(m[i+1:], c)
 			if j < 0 {
 				return nil, false
 			}
-			ts = append(ts, token{kind: 'q', text: m[i+1 : i+1+j]})
+			ts = append(ts, token{kind: 'q', text: m[i+1 : i+1+j], start: i, end: i + j + 2})
 			i += j + 2
 		case c >= 'a' && c <= 'z' || c == '_':
 			j := i
 			for j < len(m) && (m[j] >= 'a' && m[j] <= 'z' || m[j] == '_') {
 				j++
 			}
-			ts = append(ts, token{kind: 'i', text: m[i:j]})
+			ts = append(ts, token{kind: 'i', text: m[i:j], start: i, end: j})
 			i = j
 		default:
 			matched := false
 			for _, op := range []string{"===", "==", "!=", "<=", ">=", "~=", "<", ">"} {
 				if strings.HasPrefix(m[i:], op) {
-					ts = append(ts, token{kind: 'o', text: op})
+					ts = append(ts, token{kind: 'o', text: op, start: i, end: i + len(op)})
 					i += len(op)
 					matched = true
 					break
@@ -121,6 +123,7 @@ func scanAtoms(m string) (atoms []atom, depth int, ok bool) {
 		if !ok {
 			return nil, 0, false
 		}
+		start := ts[i].start
 		i++
 		if i >= len(ts) {
 			return nil, 0, false
@@ -143,8 +146,8 @@ func scanAtoms(m string) (atoms []atom, depth int, ok bool) {
 		if !ok {
 			return nil, 0, false
 		}
+		atoms = append(atoms, atom{L: l, R: r, Op: op, Start: start, End: ts[i].end})
 		i++
-		atoms = append(atoms, atom{L: l, R: r, Op: op})
 	}
 	if cur != 0 || len(atoms) == 0 {
 		return nil, 0, false
